@@ -49,7 +49,11 @@ mod proofs {
         buckets.slots[0] = Some((key, (w, m as f32, n as f32)));
         if other_present { buckets.slots[1] = Some((other, other_bucket)); }
         set_now(now);
-        Setup { rl: RateLimiter { last_cleanup, buckets, duration, limit: limit_u as f32 }, key, other, limit_u, m, n, w, now, other_bucket, other_present }
+        // built by the real constructor (so that fields a refactoring adds are initialised by it), then put into the symbolic state
+        let mut rl: RateLimiter<u8> = RateLimiter::new(duration, limit_u as usize);
+        rl.last_cleanup = last_cleanup;
+        rl.buckets = buckets;
+        Setup { rl, key, other, limit_u, m, n, w, now, other_bucket, other_present }
     }
 
     /// S1, S2, S4: exact integer counters; admitted only below the limit; a rejection adds nothing; the window
